@@ -146,7 +146,7 @@ func unionBoxes(boxes []rect.Rect) rect.Rect {
 }
 
 func runC19(r *rt.Runner) {
-	n := r.N(100000, 1000000)
+	n := r.N(250000, 2000000)
 	for k := 0; k < n; k++ {
 		r.Case("type1", func(c *rt.C) {
 			rng := c.Rand()
